@@ -9,7 +9,7 @@ import z3
 
 from ..pyvc.values import Unsupported, Infeasible
 from .ctype import TInt, TPtr, TArray, TRecord, TFunc, TVoid
-from .values import V, zt, vbool, truth, FnPtr, Block, Ptr, UNINIT, State, leaves
+from .values import V, zt, vbool, truth, FnPtr, Block, Ptr, UNINIT, State, leaves, OffsetTok, VaTok
 from .frontend import const_value
 from . import tables
 
@@ -28,6 +28,11 @@ class _Break(Exception):
 
 class _Continue(Exception):
     pass
+
+
+class _Goto(Exception):
+    def __init__(self, label):
+        self.label = label
 
 
 class PathCut(Exception):
@@ -182,6 +187,22 @@ class Engine:
         self.assume(cond if d else z3.Not(cond))
         return d
 
+    def instantiate(self, term, sort=None):
+        """instantiate every universally quantified fact assumed on this path (of that sort) at `term`, now and for later ones"""
+        term = z3.IntVal(term) if isinstance(term, int) else term
+        if any(term.eq(x) and xs == sort for xs, x in self.inst_terms):
+            return
+        self.inst_terms.append((sort, term))
+        for (us, u) in list(self.universals):
+            if sort is None or us is None or us == sort:
+                self.assume(u(term))
+
+    def add_universal(self, fn, sort=None):
+        self.universals.append((sort, fn))
+        for (ts, t) in list(self.inst_terms):
+            if sort is None or ts is None or ts == sort:
+                self.assume(fn(t))
+
     def require(self, kind, clause, goal, node=None, **meta):
         """Obligation raised inside a path; afterwards the path continues under the assumption that it holds."""
         if isinstance(goal, bool):
@@ -197,6 +218,8 @@ class Engine:
         self.path_obls.append((clause, list(self.pc), goal, meta))
         if z3.is_false(g):
             raise PathCut()          # definite failure: recorded; nothing beyond it is meaningful
+        if not self.feasible(goal):
+            raise PathCut()          # the obligation fails on every state of this path: the continuation would be vacuous
         self.assume(goal)
 
     def where(self, node):
@@ -258,7 +281,8 @@ class Engine:
         else:
             b = self.new_block(name, ct, 1, "global", single=True, const=const)
         if (const or name in self.trusted_init) and "init" in node:
-            init = [c for c in node.get("inner", []) if c.get("kind") not in (None,) and not c["kind"].endswith("Attr")]
+            init = [c for c in node.get("inner", []) if c.get("kind") not in (None,) and not c["kind"].endswith("Attr")
+                    and not c["kind"].endswith("Comment")]
             if init:
                 b.init = self.const_init(init[-1], ct)
         self.globals[name] = b
@@ -274,6 +298,9 @@ class Engine:
                 if items is None:
                     raise Unsupported("array initialiser %s" % n.get("kind"))
                 filler = [c for c in n.get("array_filler", [])]
+                if filler and not items:
+                    # clang's form for partially initialised arrays: array_filler = [filler, e0, e1, ...]
+                    items, filler = filler[1:], filler[:1]
                 k = 0
                 for it in items:
                     if it.get("kind") == "ImplicitValueInitExpr" and False:
@@ -358,6 +385,8 @@ class Engine:
             self.require("mem", "%s.non_null" % what, False, node)
         if not isinstance(ptr.null, bool) or ptr.null:
             self.require("mem", "%s.non_null" % what, z3.Not(ptr.null) if not isinstance(ptr.null, bool) else (not ptr.null), node)
+        if ptr.block.kind == "unknown":
+            self.require("mem", "%s.pointer_target_known_valid" % what, False, node)
         if not ptr.block.live:
             self.require("mem", "%s.live" % what, False, node)
         idx, t = self.walk(ptr)
@@ -390,6 +419,8 @@ class Engine:
         return block.single and shape.count("[]") == 1
 
     def initial_cell(self, block, shape, scalar):
+        if getattr(block, "zeroed", False):
+            return z3.IntVal(0) if scalar else z3.K(z3.IntSort(), z3.IntVal(0))
         nm = "m!%s!%s" % (block.name, ".".join(shape[1:]) if len(shape) > 1 else "")
         if scalar:
             return z3.Int(nm)
@@ -413,11 +444,20 @@ class Engine:
         lin, t = self.check_access(ptr, node, "load")
         if isinstance(t, (TRecord, TArray)):
             raise Unsupported("load of aggregate %r" % (t,))
-        if isinstance(t, TPtr) and not isinstance(t.to, TFunc):
-            raise Unsupported("load of a data pointer from memory (%r)" % (ptr,))
         shape = ptr.shape()
         b = ptr.block
         key = (b.id, shape)
+        if isinstance(t, TPtr) and not isinstance(t.to, TFunc):
+            if not self.is_scalar_cell(b, shape):
+                raise Unsupported("load of a data pointer from an array cell (%r)" % (ptr,))
+            v = self.state.pmem.get(key)
+            if v is None:
+                if getattr(b, "zeroed", False):
+                    v = Ptr.NULL(t.to)
+                else:
+                    v = self.unknown_ptr(t.to, "%s%s" % (b.name, "".join("." + x for x in shape[1:])))
+                self.state.pmem[key] = v
+            return v
         lo, hi = self.leaf_range(t)
         if key not in self.state.mem and b.init is not None and shape in b.init:
             tab = b.init[shape]
@@ -430,6 +470,9 @@ class Engine:
                 r = V(term, min(vals), max(vals))
         else:
             if key not in self.state.mem and b.kind in ("local", "vla") and not getattr(b, "initialised", False):
+                if b.single and isinstance(b.elem, TInt):
+                    # an address-taken scalar local that nothing has written yet
+                    self.require("ub", "read_of_uninitialised_local(%s)" % b.name, False, node)
                 # reading a local aggregate element never written: indeterminate value of the leaf type
                 self.notes.add("uninitialised local array/struct elements read as arbitrary values of their type")
             c = self.get_cell(self.state, b, shape)
@@ -447,7 +490,38 @@ class Engine:
                 r = V(term, lo, hi)
         if isinstance(t, TPtr):
             return FnPtr(r)
-        return r
+        return self.from_raw(r, t, ptr.view)
+
+    @staticmethod
+    def _byte_view(t, view):
+        return isinstance(view, TInt) and isinstance(t, TInt) and view.bits == 8 and t.bits == 8 and view.signed != t.signed \
+            and not view.is_bool and not t.is_bool
+
+    def from_raw(self, r, t, view):
+        """value seen through an 8-bit view of the other signedness (same byte, reinterpreted)"""
+        if not self._byte_view(t, view):
+            return r
+        if r.concrete:
+            x = r.t & 0xff
+            return V(x - 256 if view.signed and x >= 128 else x)
+        if view.signed:
+            return V(z3.If(r.t >= 128, r.t - 256, r.t), -128, 127)
+        return V(z3.If(r.t < 0, r.t + 256, r.t), 0, 255)
+
+    def to_raw(self, v, t, view):
+        if not self._byte_view(t, view):
+            return v
+        if v.concrete:
+            x = v.t & 0xff
+            return V(x - 256 if t.signed and x >= 128 else x)
+        if t.signed:
+            return V(z3.If(zt(v) >= 128, zt(v) - 256, zt(v)), -128, 127)
+        return V(z3.If(zt(v) < 0, zt(v) + 256, zt(v)), 0, 255)
+
+    def unknown_ptr(self, pointee, name):
+        """a pointer about which nothing is known: any dereference is a failed obligation"""
+        blk = self.new_block("unknown(%s)" % name, pointee if not isinstance(pointee, TVoid) else TInt(8, False, "byte"), 0, "unknown")
+        return Ptr(blk, (("i", V(0)),), pointee, z3.Bool(self.fresh("isnull!%s" % name)))
 
     def store(self, ptr, val, node=None):
         lin, t = self.check_access(ptr, node, "store")
@@ -457,19 +531,59 @@ class Engine:
             raise Unsupported("store of aggregate %r" % (t,))
         if isinstance(val, FnPtr):
             val = val.code
-        if isinstance(val, Ptr):
-            raise Unsupported("store of a data pointer to memory")
-        if val is UNINIT:
-            raise Unsupported("store of an uninitialised value")
         shape = ptr.shape()
         b = ptr.block
+        if isinstance(val, Ptr):
+            if not (isinstance(t, TPtr) and self.is_scalar_cell(b, shape)):
+                raise Unsupported("store of a data pointer into an array cell / non-pointer member")
+            self.guard_write(b, shape, node)
+            self.havoc_union_siblings(ptr)
+            self.state.pmem[(b.id, shape)] = val
+            self.state.written.add((b.id, shape))
+            return
+        if val is UNINIT:
+            raise Unsupported("store of an uninitialised value")
+        val = self.to_raw(val, t, ptr.view)
         self.guard_write(b, shape, node)
+        self.havoc_union_siblings(ptr)
+        if isinstance(t, TInt) and t.bits == 8 and val.concrete and val.t == 0 and lin is not None:
+            nul = dict(self.state.ghost.get("nul", {}))
+            nul[(b.id, shape)] = nul.get((b.id, shape), []) + [zt(lin)]
+            self.state.ghost["nul"] = nul
         c = self.get_cell(self.state, b, shape)
         if self.is_scalar_cell(b, shape):
             self.state.mem[(b.id, shape)] = zt(val)
         else:
             self.state.mem[(b.id, shape)] = z3.Store(c, zt(lin), zt(val))
         self.state.written.add((b.id, shape))
+
+    def havoc_union_siblings(self, ptr):
+        """a store to one member of a union makes the other members' content indeterminate"""
+        t = TArray(ptr.block.elem, None)
+        steps = []
+        for k, v in ptr.steps:
+            if k == "i":
+                t = t.elem if isinstance(t, TArray) else t
+            else:
+                if isinstance(t, TRecord) and t.rec.tag == "union":
+                    base = Ptr(ptr.block, tuple(steps), t)
+                    for f in t.rec.fields:
+                        if f.name == v:
+                            continue
+                        for sh, dims, lt in leaves(f.ctype):
+                            st = list(steps) + [("f", f.name)] + [("i", V(0)) if x == "[]" else ("f", x) for x in sh]
+                            q = Ptr(ptr.block, tuple(st), lt)
+                            key = (ptr.block.id, q.shape())
+                            if isinstance(lt, TPtr) and not isinstance(lt.to, TFunc):
+                                self.state.pmem.pop(key, None)
+                            else:
+                                self.state.mem[key] = self._fresh_cell(ptr.block, q.shape())
+                t = t.rec.field(v).ctype
+            steps.append((k, v))
+
+    def _fresh_cell(self, block, shape):
+        nm = self.fresh("u!%s!%s" % (block.name, ".".join(shape[1:])))
+        return z3.Int(nm) if self.is_scalar_cell(block, shape) else z3.Array(nm, z3.IntSort(), z3.IntSort())
 
     def guard_write(self, block, shape, node=None):
         for allowed, first_new, desc in self.wguards:
@@ -479,10 +593,14 @@ class Engine:
                 raise Unsupported("%s writes %s%s which its `assigns` clause does not list (%s)"
                                   % (desc, block.name, "." + ".".join(shape[1:]) if len(shape) > 1 else "", self.where(node)))
 
-    def havoc_cell(self, block, shape, lin=None, count=None):
+    def havoc_cell(self, block, shape, lin=None, count=None, ltype=None):
         """forget the content of a cell; with lin: only that element (Store of a fresh value)"""
         self.guard_write(block, shape)
         key = (block.id, shape)
+        if isinstance(ltype, TPtr) and not isinstance(ltype.to, TFunc):
+            self.state.pmem[key] = self.unknown_ptr(ltype.to, "havoc.%s%s" % (block.name, "".join("." + x for x in shape[1:])))
+            self.state.written.add(key)
+            return None
         v = self.state.ver.get(key, 0) + 1
         self.state.ver[key] = v
         nm = "h%d!%s!%s" % (v, block.name, ".".join(shape[1:]))
@@ -525,18 +643,21 @@ class Engine:
             return V(x)
         if v.lo is not None and v.hi is not None and v.lo >= t.lo and v.hi <= t.hi:
             return v
+        tz = v.tz if v.tz <= t.bits else t.bits        # wrapping changes the value by a multiple of 2^bits
         if self.entails(z3.And(v.t >= t.lo, v.t <= t.hi)):
-            return V(v.t, max(t.lo, v.lo) if v.lo is not None else t.lo, min(t.hi, v.hi) if v.hi is not None else t.hi)
+            return V(v.t, max(t.lo, v.lo) if v.lo is not None else t.lo, min(t.hi, v.hi) if v.hi is not None else t.hi, tz=v.tz)
         m = 1 << t.bits
         if not t.signed:
             # one-sided cases keep the term small
             if v.lo is not None and v.lo >= 0 and v.hi is not None and v.hi < 2 * m:
-                return V(z3.If(v.t >= m, v.t - m, v.t), 0, t.hi)
+                return V(z3.If(v.t >= m, v.t - m, v.t), 0, t.hi, tz=tz)
             if v.hi is not None and v.hi <= t.hi and v.lo is not None and v.lo >= -m:
-                return V(z3.If(v.t < 0, v.t + m, v.t), 0, t.hi)
-            return V(v.t % m, 0, t.hi)
+                return V(z3.If(v.t < 0, v.t + m, v.t), 0, t.hi, tz=tz)
+            return V(v.t % m, 0, t.hi, tz=tz)
         self.notes.add("out-of-range conversion to a signed type wraps (implementation-defined; gcc/clang)")
-        return V((v.t + m // 2) % m - m // 2, t.lo, t.hi)
+        if v.lo is not None and v.lo >= 0 and v.hi is not None and v.hi < m:
+            return V(z3.If(v.t >= m // 2, v.t - m, v.t), t.lo, t.hi, tz=tz)
+        return V((v.t + m // 2) % m - m // 2, t.lo, t.hi, tz=tz)
 
     @staticmethod
     def _iv(op, a, b):
@@ -573,13 +694,13 @@ class Engine:
                     return V(0)
                 if op == "*" and b.concrete and b.t == 1:
                     term = zt(a)
-                r = V(term, lo, hi)
+                r = V(term, lo, hi, tz=(min(a.tz, b.tz) if op in "+-" else min(a.tz + b.tz, 64)))
             if t is None:
                 return r
             if t.signed:
                 if not (r.lo is not None and r.hi is not None and r.lo >= t.lo and r.hi <= t.hi):
                     self.require("ub", "signed_overflow(%s)" % op, z3.And(zt(r) >= t.lo, zt(r) <= t.hi), node)
-                    r = V(r.t, max(r.lo, t.lo) if r.lo is not None else t.lo, min(r.hi, t.hi) if r.hi is not None else t.hi)
+                    r = V(r.t, max(r.lo, t.lo) if r.lo is not None else t.lo, min(r.hi, t.hi) if r.hi is not None else t.hi, tz=r.tz)
                 return r
             return self.conv(r, t, node)
         if op in ("/", "%"):
@@ -646,9 +767,9 @@ class Engine:
                 r = self.arith("*", a, p, None)
                 if not (r.hi is not None and r.hi <= t.hi):
                     self.require("ub", "signed_overflow(<<)", zt(r) <= t.hi, node)
-                    r = V(r.t, r.lo, t.hi if r.hi is None else min(r.hi, t.hi))
+                    r = V(r.t, r.lo, t.hi if r.hi is None else min(r.hi, t.hi), tz=r.tz)
                 if a.concrete and a.t == 1 and not b.concrete:
-                    r = V(r.t, r.lo, r.hi, p2=b)
+                    r = V(r.t, r.lo, r.hi, p2=b, tz=r.tz)
                 return r
             r = self.arith("*", a, p, None)
             return self.conv(r, t, node) if t is not None else r
@@ -703,6 +824,13 @@ class Engine:
     def bitop(self, op, a, b, t, node):
         if a.concrete and b.concrete:
             return V({"&": a.t & b.t, "|": a.t | b.t, "^": a.t ^ b.t}[op])
+        if op in ("|", "^"):
+            # x has its low k bits clear and 0 <= y < 2^k: the bits are disjoint, x | y = x ^ y = x + y (two's complement)
+            for x, y in ((a, b), (b, a)):
+                if x.tz > 0 and y.lo is not None and y.lo >= 0 and y.hi is not None and y.hi < (1 << min(x.tz, 62)):
+                    lo = None if x.lo is None else x.lo + y.lo
+                    hi = None if x.hi is None else x.hi + y.hi
+                    return V(zt(x) + zt(y), lo, hi, tz=min(x.tz, y.tz))
         if a.concrete:
             a, b = b, a
         if b.concrete:
@@ -826,7 +954,7 @@ class Engine:
             body = [c for c in f["inner"] if c.get("kind") == "CompoundStmt"][0]
             ret = None
             try:
-                self.exec(body, fr)
+                self.exec_body_with_labels(body, fr)
             except _Return as r:
                 ret = r.v
             if len(self.frames) == 1:
@@ -836,6 +964,22 @@ class Engine:
             return ret
         finally:
             self.frames.pop()
+
+    def exec_body_with_labels(self, body, fr):
+        """the function's outermost block; a `goto` (from anywhere inside) to a label that is a direct child of this block and
+        lies AFTER the statement being executed resumes there (forward jumps only: no loop can be formed)"""
+        kids = [c for c in body.get("inner", []) if c.get("kind")]
+        i = 0
+        while i < len(kids):
+            try:
+                self.exec(kids[i], fr)
+            except _Goto as g:
+                tgt = [j for j, c in enumerate(kids) if c.get("kind") == "LabelStmt" and c.get("declId") == g.label]
+                if not tgt or tgt[0] <= i:
+                    raise Unsupported("goto to a label that is not a later statement of the function's outermost block")
+                i = tgt[0]
+                continue
+            i += 1
 
     def address_taken(self, fnode):
         key = fnode["id"]
@@ -909,8 +1053,22 @@ class Engine:
                 raise Unsupported("declaration %s" % d.get("kind"))
 
     def declare_local(self, d, fr):
+        if d.get("storageClass") == "static" and "const" in d["type"]["qualType"].split("*")[0].split() and "init" in d:
+            # function-local constant table: its initialiser is its content
+            ct0 = self.tt.parse(d["type"]["qualType"])
+            inner0 = [c for c in d.get("inner", []) if c.get("kind") and not c["kind"].endswith("Attr") and not c["kind"].endswith("Comment")]
+            if isinstance(ct0, TArray) and ct0.n is not None and inner0:
+                b = self.new_block(d["name"], ct0.elem, ct0.n, "global", const=True)
+                b.init = self.const_init(inner0[-1], ct0)
+                fr.names[d["name"]] = d["id"]
+                fr.locals[d["id"]] = b
+                return
         if d.get("storageClass") in ("static", "extern"):
             raise Unsupported("static/extern local %s" % d.get("name"))
+        if d["type"]["qualType"] in ("va_list", "__builtin_va_list", "__gnuc_va_list"):
+            fr.names[d["name"]] = d["id"]
+            fr.locals[d["id"]] = VaTok()
+            return
         ct = self.tt.parse(d["type"]["qualType"])
         fr.names[d["name"]] = d["id"]
         inner = [c for c in d.get("inner", []) if c.get("kind")]
@@ -973,7 +1131,26 @@ class Engine:
                     self.init_aggregate(q, ct.elem, items[i], fr)
                 else:
                     self.zero_init(q, ct.elem)
+        elif isinstance(ct, TRecord) and k in ("ImplicitCastExpr", "DeclRefExpr", "MemberExpr", "CompoundLiteralExpr", "ParenExpr", "CallExpr"):
+            self.copy_object(p, self.lv_of_rvalue_struct(init, fr), ct, init)
+        elif isinstance(ct, TRecord) and ct.rec.tag == "union":
+            if k == "ImplicitValueInitExpr":
+                return
+            if k != "InitListExpr":
+                raise Unsupported("union initialiser %s" % k)
+            items = [c for c in init.get("inner", []) if c.get("kind")]
+            fld = init.get("field")
+            f = None
+            if fld is not None:
+                f = self.tu.field_by_id.get(fld.get("id"))
+            if f is None:
+                f = ct.rec.fields[0]
+            if items:
+                self.init_aggregate(p.field(f.name, f.ctype), f.ctype, items[0], fr)
         elif isinstance(ct, TRecord):
+            if k == "ImplicitValueInitExpr":
+                self.zero_init(p, ct)
+                return
             if k != "InitListExpr":
                 raise Unsupported("record initialiser %s" % k)
             items = init.get("inner", [])
@@ -990,6 +1167,9 @@ class Engine:
                 self.store(p, self.rv(init, fr), init)
 
     def zero_init(self, p, ct):
+        if isinstance(ct, TRecord) and ct.rec.tag == "union":
+            f = ct.rec.fields[0]
+            return self.zero_init(p.field(f.name, f.ctype), f.ctype)
         if isinstance(ct, TArray):
             for i in range(ct.n):
                 self.zero_init(Ptr(p.block, p.steps + (("i", V(i)),), ct.elem), ct.elem)
@@ -999,7 +1179,7 @@ class Engine:
         elif isinstance(ct, TPtr) and isinstance(ct.to, TFunc):
             self.store(p, FnPtr(0))
         elif isinstance(ct, TPtr):
-            raise Unsupported("zero-initialised data pointer in memory")
+            self.store(p, Ptr.NULL(ct.to))
         else:
             self.store(p, V(0))
 
@@ -1036,7 +1216,7 @@ class Engine:
         if k is None:
             return True
         if k in ("ReturnStmt", "BreakStmt", "ContinueStmt", "GotoStmt", "ForStmt", "WhileStmt", "DoStmt", "SwitchStmt", "CallExpr",
-                 "DeclStmt", "LabelStmt"):
+                 "DeclStmt", "LabelStmt", "StmtExpr", "CompoundLiteralExpr"):
             return False
         return all(self.mergeable(c) for c in node.get("inner", []))
 
@@ -1046,6 +1226,7 @@ class Engine:
             return False
         snap = (dict(fr.locals), dict(self.state.mem), dict(self.state.ver), set(self.state.written), len(self.pc),
                 len(self.path_obls), dict(self.counter), set(self._assumed), self.nblocks)
+        pm0 = dict(self.state.pmem)
 
         def restore():
             fr.locals.clear()
@@ -1067,8 +1248,12 @@ class Engine:
             return out
         try:
             l1, m1, w1, f1 = run_branch(c, then)
+            pm1 = dict(self.state.pmem)
             restore()
+            self.state.pmem = dict(pm0)
             l2, m2, w2, f2 = run_branch(z3.Not(c), els)
+            if set(pm1) != set(self.state.pmem) or any(pm1[k_] is not self.state.pmem[k_] for k_ in pm1):
+                raise Unsupported("merge: branches store different pointers")
             merged_locals = {}
             for k in set(l1) | set(l2):
                 if k not in l1 or k not in l2:
@@ -1087,6 +1272,7 @@ class Engine:
         except Unsupported:
             # not mergeable after all: roll back and let the caller fork
             restore()
+            self.state.pmem = dict(pm0)
             del self.pc[snap[4]:]
             del self.pc_syms[snap[4]:]
             del self.path_obls[snap[5]:]
@@ -1131,6 +1317,55 @@ class Engine:
         if a is UNINIT and b is UNINIT:
             return a
         raise Unsupported("merge of %r and %r" % (a, b))
+
+    def st_SwitchStmt(self, s, fr):
+        inner = [c for c in s.get("inner", []) if c.get("kind")]
+        if s.get("hasInit") or s.get("hasVar") or len(inner) != 2 or inner[1].get("kind") != "CompoundStmt":
+            raise Unsupported("switch shape")
+        v = self.rv(inner[0], fr)
+        stmts, labels, default = [], [], [None]
+
+        def add(n):
+            k = n.get("kind")
+            if k == "CaseStmt":
+                kids = [c for c in n.get("inner", []) if c.get("kind")]
+                if len(kids) != 2:
+                    raise Unsupported("case range")
+                val = const_value(kids[0], self.tu)
+                if val is None:
+                    raise Unsupported("non-constant case label")
+                labels.append((val, len(stmts)))
+                add(kids[1])
+            elif k == "DefaultStmt":
+                default[0] = len(stmts)
+                add([c for c in n.get("inner", []) if c.get("kind")][0])
+            else:
+                stmts.append(n)
+        for c in inner[1].get("inner", []):
+            if c.get("kind"):
+                add(c)
+        start = None
+        for val, pos in labels:
+            if self.branch(truth(self.compare("==", v, V(val)))):
+                start = pos
+                break
+        if start is None:
+            start = default[0]
+        if start is None:
+            return
+        try:
+            for st in stmts[start:]:
+                self.exec(st, fr)
+        except _Break:
+            return
+
+    def st_GotoStmt(self, s, fr):
+        raise _Goto(s.get("targetLabelDeclId"))
+
+    def st_LabelStmt(self, s, fr):
+        for c in s.get("inner", []):
+            if c.get("kind"):
+                self.exec(c, fr)
 
     def st_DoStmt(self, s, fr):
         body, cond = s["inner"][0], s["inner"][1]
@@ -1281,13 +1516,41 @@ class Engine:
         if k == "StringLiteral":
             key = e.get("value", "")
             if key not in self._strings:
-                n = len(key.encode()) + 1
+                # the JSON carries the literal as spelled in the source (quotes, escapes); its size comes from the type
+                at = self.ntype(e)
+                n = at.n if isinstance(at, TArray) and at.n else len(key.encode()) + 1
+                content = None
+                try:
+                    import ast as _ast
+                    if key.startswith('"'):
+                        val = _ast.literal_eval("b" + key) if all(ord(ch) < 128 for ch in key) else None
+                        if val is not None and len(val) + 1 == n:
+                            content = list(val) + [0]
+                except Exception:
+                    content = None
                 b = self.new_block("str%d" % len(self._strings), TInt(8, self.tu.target.char_signed, "char"), n, "string", const=True)
+                if content is not None:
+                    if self.tu.target.char_signed:
+                        content = [x - 256 if x >= 128 else x for x in content]
+                    b.init = {("[]",): dict(enumerate(content))}
+                    nul = dict(self.state.ghost.get("nul", {}))
+                    nul[(b.id, ("[]",))] = [z3.IntVal(n - 1)]
+                    self.state.ghost["nul"] = nul
                 self._strings[key] = b
             b = self._strings[key]
             return Ptr(b, (), TArray(b.elem, b.count.t))
         if k == "CompoundLiteralExpr":
-            raise Unsupported("compound literal")
+            ct = self.ntype(e)
+            init = [c for c in e.get("inner", []) if c.get("kind")][0]
+            if isinstance(ct, TArray):
+                b = self.new_block("literal", ct.elem, ct.n, "local")
+                p = Ptr(b, (), ct)
+            else:
+                b = self.new_block("literal", ct, 1, "local", single=True)
+                p = Ptr(b, (("i", V(0)),), ct)
+            b.scope = fr
+            self.init_aggregate(p, ct, init, fr)
+            return p
         raise Unsupported("lvalue %s (%s)" % (k, self.where(e)))
 
     def as_view(self, p, node):
@@ -1297,13 +1560,16 @@ class Engine:
     def ptr_add(self, p, k, node=None, sign=1):
         if p.block is None:
             self.require("mem", "pointer_arithmetic.non_null", False, node)
+        if not isinstance(p.null, bool):
+            self.require("ub", "pointer_arithmetic.non_null", z3.Not(p.null), node)
+            p = Ptr(p.block, p.steps, p.ctype, False, p.view)
         if sign < 0:
             k = self.arith("-", V(0), k, None)
         if p.steps and p.steps[-1][0] == "i":
             last = p.steps[-1][1]
-            return Ptr(p.block, p.steps[:-1] + (("i", self.arith("+", last, k, None)),), p.ctype, p.null)
+            return Ptr(p.block, p.steps[:-1] + (("i", self.arith("+", last, k, None)),), p.ctype, p.null, p.view)
         # pointer to a non-array sub-object (or to the whole single object)
-        return Ptr(p.block, p.steps + (("i", k),), p.ctype, p.null)
+        return Ptr(p.block, p.steps + (("i", k),), p.ctype, p.null, p.view)
 
     def read_lv(self, loc, node=None):
         if isinstance(loc, tuple):
@@ -1377,6 +1643,8 @@ class Engine:
             return vbool(truth(self.rv(sub, fr)))
         if ck == "ArrayToPointerDecay":
             loc = self.lv(sub, fr)
+            if isinstance(loc, tuple) and isinstance(loc[1].locals.get(loc[2]), VaTok):
+                return loc[1].locals[loc[2]]
             if not isinstance(loc, Ptr) or not isinstance(loc.ctype, TArray):
                 raise Unsupported("array decay of %r" % (loc,))
             return loc.index0(loc.ctype.elem)
@@ -1392,10 +1660,44 @@ class Engine:
             t = self.ntype(e)
             if isinstance(v, Ptr) and v.block is None and isinstance(t, TPtr) and isinstance(t.to, TFunc):
                 return FnPtr(0)
+            if isinstance(v, Ptr) and isinstance(t, TPtr) and isinstance(v.view, tuple) and v.view[0] == "bytes":
+                if v.view[1] == 0 and isinstance(t.to, TInt) and t.to.bits == 8:
+                    return v
+                if v.view[1] == "-offsetof" and isinstance(t.to, TRecord) and v.steps and v.steps[-1][0] == "f":
+                    # (T *)((char *)&obj->member - offsetof(T, member)): the enclosing object, if it is a T
+                    parent = Ptr(v.block, v.steps[:-1], t.to, v.null)
+                    if v.block.kind == "unknown":
+                        return parent
+                    _, pt = self.walk(parent)
+                    if isinstance(pt, TRecord) and pt.rec.id == t.to.rec.id:
+                        self.notes.add("container_of idiom: `(T *)((char *)&x->member - offsetof(...))` yields the enclosing T of the member "
+                                       "pointed to; clang 14's JSON does not expose the offsetof operands (taken to name that member)")
+                        return parent
+                    # the member belongs to an object of another type (e.g. the list head inside struct trx_instance):
+                    # the result is not a valid T
+                    blk = self.new_block("container_of(%s)" % (v,), TInt(8, False, "byte"), 0, "unknown")
+                    return Ptr(blk, (("i", V(0)),), t.to, v.null)
+                raise Unsupported("cast of a byte pointer outside the container_of idiom")
+            if isinstance(v, Ptr) and isinstance(t, TPtr) and v.block is not None and v.block.kind == "heap_raw":
+                # `(T *)talloc_zero(...)`: the allocation gets its type here, if its size is sizeof(T)
+                size = self.tt.sizeof(t.to)
+                if not (v.block.count.concrete and v.block.count.t == size):
+                    raise Unsupported("allocation of %s octets cast to %r (size %d)" % (v.block.count.t, t.to, size))
+                self.layout_checks[getattr(self, "_cast_spelling", None) or ("struct %s" % t.to.rec.name if isinstance(t.to, TRecord) else None)] = size
+                self.layout_checks.pop(None, None)
+                blk = v.block
+                blk.elem, blk.count, blk.single, blk.kind = t.to, V(1), True, "heap"
+                return Ptr(blk, (("i", V(0)),), t.to, v.null)
             if isinstance(v, Ptr) and isinstance(t, TPtr):
                 # casts to/from void* and qualifier changes keep the location; the typed model is enforced at access
                 if isinstance(t.to, TVoid) or isinstance(v.ctype, TVoid) or t.to.key() == v.ctype.key():
-                    return v
+                    return v.with_view(None) if v.view is not None and t.to.key() == v.ctype.key() else v
+                if isinstance(t.to, TInt) and isinstance(v.ctype, TInt) and t.to.bits == 8 and v.ctype.bits == 8:
+                    # char / int8_t / uint8_t views of the same bytes: signedness applied at load/store
+                    return v.with_view(t.to)
+                if isinstance(t.to, TInt) and t.to.bits == 8 and v.steps and v.steps[-1][0] == "f":
+                    # (char *)&obj->member : byte pointer to a member, only meaningful for container_of arithmetic
+                    return Ptr(v.block, v.steps, v.ctype, v.null, ("bytes", 0))
                 raise Unsupported("pointer cast %r -> %r (type punning is outside the typed memory model)" % (v.ctype, t.to))
             if isinstance(v, FnPtr):
                 return v
@@ -1403,6 +1705,16 @@ class Engine:
         if ck == "ToVoid":
             self.rv(sub, fr, discard=True)
             return None
+        if ck == "IntegralToPointer":
+            v = self.rv(sub, fr)
+            t = self.ntype(e)
+            if isinstance(v, V) and v.concrete:
+                if v.t == 0:
+                    return Ptr.NULL(t.to if isinstance(t, TPtr) else None)
+                # a fixed non-null address (poison values): never a valid object
+                blk = self.new_block("addr_0x%x" % v.t, TInt(8, False, "byte"), 0, "unknown")
+                return Ptr(blk, (("i", V(0)),), t.to if isinstance(t, TPtr) else TVoid(), False)
+            raise Unsupported("integer to pointer conversion of a non-constant")
         raise Unsupported("cast kind %s (%s)" % (ck, self.where(e)))
 
     def ex_UnaryOperator(self, e, fr):
@@ -1482,6 +1794,12 @@ class Engine:
         if op in ("<", "<=", ">", ">=", "==", "!="):
             return self.compare(op, a, b)
         t = self.ntype(e)
+        if isinstance(a, Ptr) and isinstance(b, OffsetTok):
+            if op == "-" and isinstance(a.view, tuple) and a.view[0] == "bytes" and a.view[1] == 0:
+                return Ptr(a.block, a.steps, a.ctype, a.null, ("bytes", "-offsetof"))
+            raise Unsupported("offsetof arithmetic outside the container_of idiom")
+        if isinstance(a, OffsetTok) or isinstance(b, OffsetTok):
+            raise Unsupported("offsetof arithmetic outside the container_of idiom")
         if isinstance(a, Ptr) or isinstance(b, Ptr):
             if op == "+":
                 return self.ptr_add(a, b, e) if isinstance(a, Ptr) else self.ptr_add(b, a, e)
@@ -1575,11 +1893,36 @@ class Engine:
             self.layout_checks[txt] = n
         return V(n)
 
+    def ex_StmtExpr(self, e, fr):
+        """GNU statement expression ({ ...; value; })"""
+        body = [c for c in e.get("inner", []) if c.get("kind")][0]
+        kids = [c for c in body.get("inner", []) if c.get("kind")]
+        val = None
+        for n, c in enumerate(kids):
+            last = n == len(kids) - 1
+            if last and (c["kind"].endswith("Expr") or c["kind"].endswith("Operator") or c["kind"].endswith("Literal")):
+                val = self.rv(c, fr)
+            else:
+                self.exec(c, fr)
+        return val
+
+    def ex_OffsetOfExpr(self, e, fr):
+        return OffsetTok()
+
+    def ex_CompoundLiteralExpr(self, e, fr):
+        raise Unsupported("aggregate rvalue (compound literal)")
+
     def ex_InitListExpr(self, e, fr):
         raise Unsupported("initialiser list as rvalue")
 
     def ex_CallExpr(self, e, fr):
         callee = e["inner"][0]
+        x0 = callee
+        while x0.get("kind") in ("ImplicitCastExpr", "ParenExpr"):
+            x0 = x0["inner"][0]
+        if x0.get("kind") == "DeclRefExpr" and x0.get("referencedDecl", {}).get("name", "") in ("__builtin_va_start", "__builtin_va_end",
+                                                                                               "__builtin_va_copy"):
+            return None          # va_list bookkeeping: the variadic arguments are only passed on to v*printf models
         args = [self.rv(a, fr) for a in e["inner"][1:]]
         x = callee
         while x.get("kind") in ("ImplicitCastExpr", "ParenExpr"):
